@@ -288,6 +288,15 @@ type Loose struct {
 	X  any          `db:"x,omitempty"`
 }
 
+// instantiated generic types: their name is "Page[int]", which no query can spell; a query naming "Page"
+// does not refer to them
+type Page[T any] struct {
+	ID T   `db:"id"`
+	N  int `db:"n"`
+}
+type KV[V any] map[string]V
+type List[E any] []E
+
 type Priced struct {
 	Amount Money         `db:"amount"`
 	Null   sql.NullInt64 `db:"nullable"`
@@ -434,7 +443,7 @@ var zooSamples = []zooEntry{
 	{"Rec", Rec{}}, {"RecA", RecA{}}, {"RecRoot", RecRoot{}}, {"M", sqlair.M{}}, {"IntMap", IntMap{}}, {"KM", KM{}}, {"BadMap", BadMap{}},
 	{"S", sqlair.S{}}, {"IntSlice", IntSlice{}}, {"StrSlice", StrSlice{}}, {"PersonSlice", PersonSlice{}},
 	{"Priced", Priced{}}, {"TaggedEmbed", TaggedEmbed{}}, {"EmbedUnexported", EmbedUnexported{}},
-	{"EmbedNonStruct", EmbedNonStruct{}}, {"Mixed", Mixed{}}, {"Doc", Doc{}}, {"Diamond", Diamond{}}, {"Twice", Twice{}}, {"Tracked", Tracked{}}, {"BlobOpt", BlobOpt{}}, {"PtrScan", PtrScan{}}, {"Wide", Wide{}}, {"Bill", Bill{}}, {"Loose", Loose{}},
+	{"EmbedNonStruct", EmbedNonStruct{}}, {"Mixed", Mixed{}}, {"Doc", Doc{}}, {"Diamond", Diamond{}}, {"Twice", Twice{}}, {"Tracked", Tracked{}}, {"BlobOpt", BlobOpt{}}, {"PtrScan", PtrScan{}}, {"Wide", Wide{}}, {"Bill", Bill{}}, {"Loose", Loose{}}, {"Page", Page[int]{}}, {"KV", KV[int]{}}, {"List", List[int]{}},
 	{"TagLoneQuote", TagLoneQuote{}}, {"TagLoneDQuote", TagLoneDQuote{}}, {"TagLoneQuoteFlag", TagLoneQuoteFlag{}}, {"TagEmptyQuoted", TagEmptyQuoted{}}, {"TagEmptyDQuoted", TagEmptyDQuoted{}}, {"TagQuoteInside", TagQuoteInside{}}, {"TagSpace", TagSpace{}}, {"TagTrailingComma", TagTrailingComma{}}, {"TagTwoFlags", TagTwoFlags{}}, {"TagDash", TagDash{}}, {"TagStar", TagStar{}}, {"TagUnderscore", TagUnderscore{}}, {"TagMixedQuotes", TagMixedQuotes{}},
 	{"zoo2.Person", zoo2.Person{}}, {"zoo2.M", zoo2.M{}}, {"zoo2.IntSlice", zoo2.IntSlice{}},
 }
